@@ -3,6 +3,7 @@
   Property theorems only; helper lemmas live in Lemmas/IE.lean.
 -/
 import IpfixModel.Lemmas.IE
+import IpfixModel.Lemmas.RecordBuf
 import IpfixModel.Spec.C15
 namespace Ipfix.C15
 
@@ -235,5 +236,72 @@ example (b : Bytes) (h : b.length = 255) : encodeVar b = some (255 :: (be 2 255 
   have := (varlen_prefix b).2.1 (by omega) (by omega); rwa [h] at this
 example : ieV4.WF ∧ encodeElem ieV4 (.bytes (v4InV6Prefix ++ [10, 0, 0, 1])) = some [10, 0, 0, 1] := by decide
 example : twos 2 (-2) = 65534 ∧ ofTwos 2 65534 = -2 := by decide
+
+/-! ## The exact model of `dataRecord.GetBuffer()` (Model/RecordBuf.lean)
+
+`recordBuf` follows the code for ALL element lists (an element that fails is logged and skipped,
+a long MAC value spills into its successors, a declared length above the type's width leaves
+zeros); it is tied to the code by the differential run of `ie recbuf` (gen/c15.py). The theorems
+below connect it to the specification encoder `encodeRecord`. -/
+
+/-- check (2) of `encodeInfoElementValueToBuff` in the model (`DataType.needWidth`) is the
+    regenerated table `InfoElementLength`: its entry where that is a width, nothing to check
+    where it is `VariableLength` -/
+theorem tie_needWidth :
+    ∀ t ∈ DataType.all,
+      (t.tableLen ≠ VariableLength → t.needWidth = t.tableLen) ∧
+      (t.tableLen = VariableLength → t.needWidth = 0) := by decide
+
+/-- "the bytes written are exactly the reported length", for ALL element lists: whatever the
+    values and the declared lengths, `GetBuffer` returns `GetRecordLength()` bytes -/
+theorem recordBuf_length (es : List Elem) : (recordBuf es).length = recordLength es :=
+  recordBuf_length' es
+
+/-- On everything the specification encoder accepts, the exact model of the code writes exactly
+    those bytes - so every theorem about `encodeRecord` (round trip `decode_encode`, wire layout
+    C02) is a theorem about what `GetBuffer` returns. No well-formedness hypothesis on the
+    elements is needed: `encodeElem` itself refuses a fixed-width element that does not declare
+    its natural width, and a string is variable-length whatever it declares, in the code as in
+    the specification. -/
+theorem recordBuf_eq_encodeRecord (es : List Elem) (bs : Bytes) (h : encodeRecord es = some bs) :
+    recordBuf es = bs :=
+  recordBuf_eq_encodeRecord' es bs h
+
+/-- element by element: an element the specification encoder accepts is written by the code as
+    specified, at whatever position of whatever buffer with room for it (`pre` = what precedes,
+    `rest` = the room from the element's index on; what follows the element is kept) -/
+theorem encodeAt_eq_encodeElem {ie : IE} {v : Value} {b : Bytes} (h : encodeElem ie v = some b)
+    (pre rest : Bytes) (hr : b.length ≤ rest.length) :
+    encodeAt ie v (pre ++ rest) pre.length = some (pre ++ b ++ rest.drop b.length) :=
+  encodeAt_of_encodeElem h pre rest hr
+
+def ieMac : IE := ⟨"sourceMacAddress", 56, .macAddress, 0, 6⟩
+
+def rec3 : List Elem :=
+  [(ieV4, .bytes [10, 0, 0, 1]), (ieU16, .num 443), (ieStr, .bytes [104, 105])]
+
+/-- `recordBuf_eq_encodeRecord` on a concrete record: address, port, pod name -/
+example : encodeRecord rec3 = some [10, 0, 0, 1, 1, 187, 2, 104, 105] ∧
+    recordBuf rec3 = [10, 0, 0, 1, 1, 187, 2, 104, 105] := by decide
+
+/-- a spill: an 8-byte value in the 6-byte MAC element. The specification encoder refuses the
+    record; the code reports 6 + 2 bytes, `copy` moves all 8 bytes of the value, and the
+    unsigned16 behind the MAC element then overwrites the two spilled bytes ... -/
+example : encodeRecord [(ieMac, .bytes [1, 2, 3, 4, 5, 6, 7, 8]), (ieU16, .num 0xAABB)] = none ∧
+    recordBuf [(ieMac, .bytes [1, 2, 3, 4, 5, 6, 7, 8]), (ieU16, .num 0xAABB)]
+      = [1, 2, 3, 4, 5, 6, 0xAA, 0xBB] := by decide
+
+/-- ... unless the element behind it fails too (an IPv4 element without address): then the
+    spilled bytes 7, 8 stay in ITS field and go out on the wire -/
+example :
+    recordBuf [(ieMac, .bytes [1, 2, 3, 4, 5, 6, 7, 8]), (ieV4, .bytes []), (ieU16, .num 0xAABB)]
+      = [1, 2, 3, 4, 5, 6, 7, 8, 0, 0, 0xAA, 0xBB] := by decide
+
+/-- a user-made unsigned16 element declaring 4 bytes: the value goes to the FIRST two bytes, the
+    other two stay zero (a reader taking the 4 bytes as one big-endian number sees 443 * 65536);
+    declaring 1 byte: refused by check (2), the byte stays zero -/
+example :
+    recordBuf [(⟨"u16in4", 1, .unsigned16, 55555, 4⟩, .num 443), (ieU16, .num 80)] = [1, 187, 0, 0, 0, 80] ∧
+    recordBuf [(⟨"u16in1", 2, .unsigned16, 55555, 1⟩, .num 443), (ieU16, .num 80)] = [0, 0, 80] := by decide
 
 end Ipfix.C15
